@@ -2,6 +2,7 @@ import Bluebell.Convert
 import Bluebell.Unparse
 import Bluebell.Props.C18
 import Bluebell.Props.C02
+import Bluebell.Lemmas.EscPlainLine
 /-!
 # C06 — unparsing escapes text so it can never turn into markup
 
@@ -295,5 +296,83 @@ theorem C06_safe_text_verbatim (fuel : Nat) (ctx : UCtx) (s : String) (f : Char)
   simp only [unNode]
   rw [if_neg hnr]
   simp [hp, hb, hlt, hse, escapePrefixes_lower s f r hsl hup]
+
+/-! ## Text that starts with a keyword: escaped, and read back as text -/
+
+/-- the first text of a paragraph, all characters safe, not starting with white space: what the stylesheet
+writes is `escape-prefixes` of the text itself (the two inline-escaping steps leave it alone) -/
+theorem unNode_safe_text (fuel : Nat) (ctx : UCtx) (s : String) (f : Char) (r : List Char) (hsl : s.toList = f :: r)
+    (hs : ∀ c ∈ s.toList, safeChar c = true) (hws : isXmlWs f = false)
+    (hp : ctx.parent = "p") (hb : noElems ctx.before = true) :
+    unNode (fuel + 1) ctx (.text s) = escapePrefixes s := by
+  have hlt : ltrim s = s := by
+    unfold ltrim
+    rw [hsl]
+    simp [List.dropWhile, hws, ← hsl]
+  have hfs : safeChar f = true := hs f (by rw [hsl]; simp)
+  have hlast : ∀ l, s.toList.getLast? = some l → safeChar l = true := fun l hl => hs l (List.mem_of_getLast? hl)
+  have hse : escapeStartEnd ctx s = s := by
+    unfold escapeStartEnd
+    have h1 : (s.toList.head? == some '*') = false ∧ (s.toList.head? == some '/') = false ∧ (s.toList.head? == some '_') = false := by
+      have := safe_ne f hfs
+      rw [hsl]; simp [this.1, this.2.1, this.2.2]
+    have h2 : (s.toList.getLast? == some '*') = false ∧ (s.toList.getLast? == some '/') = false ∧ (s.toList.getLast? == some '_') = false := by
+      cases hl : s.toList.getLast? with
+      | none => simp
+      | some l =>
+        have := safe_ne l (hlast l hl)
+        simp [this.1, this.2.1, this.2.2]
+    simp [h1.1, h1.2.1, h1.2.2, h2.1, h2.2.1, h2.2.2, escapeInlines_safe s hs]
+  have hnr : ¬ (ctx.parent == "remark" && firstElemTag ctx.before == some "br") = true := by simp [hp]
+  simp only [unNode]
+  rw [if_neg hnr]
+  simp [hp, hb, hlt, hse]
+
+theorem escaped_eq {s : String} (h : escaped s = true) : escapePrefixes s = "\\" ++ s := by
+  unfold escaped escapePrefixes at h
+  unfold escapePrefixes
+  by_cases hc : (xslEscapeEquals.contains s || xslEscapeStarts.any (fun k => k.toList.isPrefixOf s.toList)) = true
+  · rw [if_pos hc]
+  · rw [if_neg hc] at h
+    simp at h
+
+/-- **A paragraph whose text starts with a keyword can never turn into markup.** Whenever the stylesheet's
+`escape-prefixes` step applies to a text of safe characters (it starts with one of the listed keywords:
+`escaped s`), (1) what is written is a backslash followed by the text, unchanged; (2) wherever that line
+stands in a pre-parsed input, every block-level rule of the executing grammar reads it as one paragraph
+— no keyword rule is even tried at a backslash — and the XML builder makes `<p>` with exactly the
+original text: the backslash is gone, the keyword is text. -/
+theorem C06_keyword_paragraph_round_trip (u : Uris) (parent : Option String) (st : GenState) (fuel : Nat) (ctx : UCtx)
+    (s : String) (f d : Char) (r : List Char) (hsl : s.toList = f :: d :: r)
+    (hs : ∀ c ∈ s.toList, safeChar c = true) (hws : isXmlWs f = false) (hesc : escaped s = true)
+    (hpl : ∀ c ∈ d :: r, isPlain c = true) (hx : xmlTextOk s = true)
+    (hp : ctx.parent = "p") (hb : noElems ctx.before = true) :
+    unNode (fuel + 1) ctx (.text s) = "\\" ++ s ∧
+    ∀ (inp : Array Char) (p : Nat), inp[p]? = some '\\' → inp[p + 1]? = some f →
+      (∀ i (h : i < (d :: r).length), inp[p + 2 + i]? = some (d :: r)[i]) → inp[p + 2 + (d :: r).length]? = some '\n' →
+      ∃ t, (∀ rule ∈ blockLevelRules, Lim aknExec inp (.ref rule) p (.ok t)) ∧
+        ∀ k k2, (itemToXml u parent (k2 + 3) (toDict inp (k + 2) t) st).1 = .ok (.elem "p" [] [.text s]) := by
+  refine ⟨by rw [unNode_safe_text fuel ctx s f (d :: r) hsl hs hws hp hb, escaped_eq hesc], ?_⟩
+  intro inp p h0 h1 hin hnl
+  have hat : AtPlain inp (p + 2) (d :: r) := atPlain_of_chars inp (d :: r) (p + 2) hin hnl hpl
+  have hfn : f ≠ '\n' := by
+    intro e
+    have := hs f (by rw [hsl]; simp)
+    rw [e] at this; simp [safeChar] at this
+  obtain ⟨n0, hn0⟩ := line_of_esc_plain inp p f d r h0 h1 hfn hat
+  obtain ⟨te, stop, ht⟩ := hn0 n0 (Nat.le_refl _)
+  have hline : Lim aknExec inp (.ref "line") p (.ok _) :=
+    ⟨n0, fun n hn => by rw [eval_mono aknExec inp _ p hn (by rw [ht]; trivial), ht]⟩
+  refine ⟨_, block_rules_follow_line inp p '\\' h0 C13_block_rules_choose_line _ hline, fun k k2 => ?_⟩
+  rw [toDict_esc_plain_line inp k p stop te f d r h0 h1 hat]
+  have hss : String.ofList (f :: d :: r) = s := by rw [← hsl]; simp
+  have hne : s ≠ "" := by
+    intro e; rw [e] at hsl; simp at hsl
+  rw [hss]
+  simp [itemToXml, itemsToXml, mkElem, makerCheck, mergeText, hx, Except.bind, hne]
+
+/-- the hypotheses are met by the texts this is about -/
+example : escaped "PART one of the Act" = true ∧ (∀ c ∈ "PART one of the Act".toList, safeChar c = true) ∧
+    (∀ c ∈ "ART one of the Act".toList, isPlain c = true) ∧ xmlTextOk "PART one of the Act" = true := by decide +kernel
 
 end Bluebell
